@@ -100,6 +100,8 @@ class LibModel:
                 return [(st, ZV(z3.Select(st.fields[NODE_BOOL_FIELDS[name]], n), 'bool'))]
             if name == '_invert_':
                 return [(st, ZV(Z.inv(n), 'bool'))]
+            if name == '_selects_conclusions_':
+                return [(st, ZV(Z.selects_conclusions(n), 'bool'))]
             if name == '_eval_parent_':
                 return [(st, ZV(z3.Select(st.fields['eval_parent'], n), 'optnode'))]
             if name == '_id_expression_map_':
